@@ -255,6 +255,18 @@ def osc_list(draw, sigma_max, regime, pfid=False, gaxis=None):
     return out
 
 
+TIME_REPRS = st.fixed_dictionaries({"order": st.sampled_from(["ascending", "ascending", "descending", "shuffled"]), "seed": st.integers(0, 10**6)})
+
+
+def _time_perm(case, n):
+    rep = case.get("time_repr") or {}
+    if rep.get("order") == "descending":
+        return np.arange(n)[::-1]
+    if rep.get("order") == "shuffled":
+        return np.random.default_rng([rep.get("seed", 0), n]).permutation(n)
+    return np.arange(n)
+
+
 @st.composite
 def doas_irf_cases(draw):
     ng = draw(st.integers(1, 3))
@@ -265,8 +277,16 @@ def doas_irf_cases(draw):
     osc = draw(osc_list(smax, regime))
     om = max(o["nu"] for o in osc) * W2A
     times = draw(time_axis(lo, hi, smin, smax, om, min(o["gamma"] for o in osc)))
-    return {"kind": "doas", "gaxis": gaxis, "irf": irf, "osc": osc, "times": times, "regime": regime,
-            "decay_rate": float(min(1e3, max(1e-3, 0.5 / smax)))}
+    case = {"kind": "doas", "gaxis": gaxis, "irf": irf, "osc": osc, "times": times, "regime": regime,
+            "decay_rate": float(min(1e3, max(1e-3, 0.5 / smax))), "time_repr": draw(TIME_REPRS)}
+    if len(osc) >= 2 and draw(st.integers(0, 4)) == 0:
+        # rates of mixed sign next to each other (rising oscillations are convolved anti-causally): no closed form is claimed
+        # for them here, but what a label denotes must not depend on where it stands in the list
+        k = draw(st.integers(0, len(osc) - 1))
+        if osc[k]["gamma"] > 0:
+            osc[k]["gamma"] = -osc[k]["gamma"]
+            case["mixed_sign"] = True
+    return case
 
 
 @st.composite
@@ -280,7 +300,7 @@ def pfid_cases(draw):
     osc = draw(osc_list(smax, regime, pfid=True, gaxis=gaxis))
     times = draw(time_axis(lo, hi, smin, smax, 0.0, min(abs(o["gamma"]) for o in osc), anticausal=True))
     return {"kind": "pfid", "gaxis": gaxis, "irf": irf, "osc": osc, "times": times, "regime": regime,
-            "decay_rate": float(min(1e3, max(1e-3, 0.5 / smax)))}
+            "decay_rate": float(min(1e3, max(1e-3, 0.5 / smax))), "time_repr": draw(TIME_REPRS)}
 
 
 @st.composite
@@ -525,10 +545,15 @@ def _code_matrix(case, dm, times, clause_prefix):
     idx = _indices(case)
     n = len(case["osc"])
     gaxis = np.array(case["gaxis"], dtype=float)
+    perm = _time_perm(case, times.size)  # the axis as handed over (descending / acquisition order); rows are put back below
     with np.errstate(all="ignore"):
         with expect_ok(f"{clause_prefix}.call"):
-            labels, mat = dm.megacomplex[0].calculate_matrix(dm, gaxis, times)
+            labels, mat = dm.megacomplex[0].calculate_matrix(dm, gaxis, times[perm].copy())
     mat = np.asarray(mat, dtype=float)
+    if mat.ndim >= 2 and mat.shape[-2] == times.size:
+        back = np.empty_like(mat)
+        back[..., perm, :] = mat
+        mat = back
     want = (times.size, 2 * n) if idx == [None] else (gaxis.size, times.size, 2 * n)
     check(mat.shape == want, f"{clause_prefix}.shape", lambda: f"{mat.shape} != {want}")
     want_l = [f"{o['label']}_cos" for o in case["osc"]] + [f"{o['label']}_sin" for o in case["osc"]]
@@ -593,6 +618,27 @@ def _cl(kind, what):
 def prop_osc_irf(case):
     kind = case["kind"]
     times = np.array(case["times"], dtype=float)
+    pre = "doas_irf" if kind == "doas" else "pfid"
+    if len(case["osc"]) >= 2:
+        # what a label denotes does not depend on where the oscillation stands in the list
+        import copy as _copy
+
+        rev = _copy.deepcopy(case)
+        rev["osc"] = rev["osc"][::-1]
+        _, _, dm_a = build_time_model(case)
+        _, _, dm_b = build_time_model(rev)
+        a = _code_matrix(case, dm_a, times, pre + ".order")
+        b = _code_matrix(rev, dm_b, times, pre + ".order")
+        n_ = len(case["osc"])
+        idx = [n_ - 1 - j for j in range(n_)]
+        b = b[..., idx + [n_ + j for j in idx]]  # back into the label order of ``case``
+        fin = np.isfinite(a) & np.isfinite(b)
+        scale_ = max(float(np.abs(a[fin]).max()) if fin.any() else 0.0, 1e-300)
+        check(bool(np.array_equal(np.isfinite(a), np.isfinite(b))) and float(np.abs(a[fin] - b[fin]).max() if fin.any() else 0.0) <= 1e-12 * scale_,
+              _cl(kind, "column_depends_on_list_order"),
+              lambda: f"columns by label differ by {float(np.abs(a[fin] - b[fin]).max()):.3e} (scale {scale_:.3e}) when the list of oscillations is reversed; rates {[o['gamma'] for o in case['osc']]}")
+    if case.get("mixed_sign"):
+        return {"nontrivial": True, "tags": [kind, "mixed_sign_rates_order_check_only", f"time_axis_{(case.get('time_repr') or {}).get('order', 'ascending')}"]}
     if kind == "doas":
         _no_fold(case, times)
         if any(o["gamma"] < 0 for o in case["osc"]):
@@ -685,6 +731,7 @@ def prop_osc_irf(case):
         tags.append("far_side_point")
     if refused:
         tags.append("after_refused_evaluation")
+    tags.append(f"time_axis_{(case.get('time_repr') or {}).get('order', 'ascending')}")
     nontrivial = shifted or "dispersion" in tags or n >= 2
     return {"nontrivial": bool(nontrivial), "tags": tags}
 
